@@ -285,7 +285,8 @@ def execute(case, scratch):
         multi = sum(1 for p in world["platforms"] if len(p["entries"]) > 1)
         stats["probes"]["platform_with_several_commands"] = multi
         stats["probes"]["user_compiler_config"] = 1 if world.get("cbi_config") else 0
-        return {"verdict": "ok", "stats": stats, "nontrivial": len(all_ents) >= 2}
+        return {"verdict": "ok", "stats": stats, "nontrivial": len(all_ents) >= 2,
+                "obs_digest": core.jdigest([h0["attr"], h0["setmap"], sorted(h0["events"])])}
     finally:
         W.cleanup(top)
 
